@@ -70,6 +70,24 @@ def prop_case(case):
             fails.append(Failure('%s:%s:non-termination' % (sim, mode), str(e)))
         except Exception as e:
             fails.append(Failure('%s:%s:exception:%s' % (sim, mode, exc_signature(e)), 'raised %r' % (e,)))
+    # a call must not depend on what happened before on the same graph object (hidden caches, leftover attributes)
+    try:
+        G = oracles.build_graph(case['gc'])
+        a1 = out_digest(case, simrun.call(case, False, budget=CallBudget(200000), G=G), False)
+        other = dict(case)
+        other['seed'] = case['seed'] + 17
+        other['tau'] = case['tau'] * 0.5 + 0.3
+        other['gamma'] = case['gamma'] * 2 + 0.1
+        other['p'] = 0.5 if case['p'] != 0.5 else 0.9
+        other['I0'] = case['I0'][::-1][:1] or case['I0']
+        simrun.call(other, True, budget=CallBudget(200000), G=G)
+        a2 = out_digest(case, simrun.call(case, False, budget=CallBudget(200000), G=G), False)
+        if a1 != a2:
+            fails.append(Failure('%s:depends-on-earlier-calls' % sim, 'same seeds, same graph object: the result changes after a different simulation was run on that graph in between'))
+    except RunawayError as e:
+        fails.append(Failure('%s:interleaved:non-termination' % sim, str(e)))
+    except Exception as e:
+        fails.append(Failure('%s:interleaved:exception:%s' % (sim, exc_signature(e)), 'raised %r' % (e,)))
     if sim in CONT and False in states and True in states:
         if states[False] != states[True]:
             which = 'random' if states[False][0] != states[True][0] else 'numpy.random'
